@@ -1194,8 +1194,10 @@ fn ev(kind: &str, dual: bool, lm: bool, mode: &str, list: &[String], cache: bool
 
 fn random(bin: &str, base: &Path, sessions: usize, conns: usize) {
     let mut rng = Rng::from_env();
-    let universe = ["127.0.0.1", "127.0.0.2", "127.9.9.9", "127.200.1.1", "::1", "10.1.2.3", "192.0.2.55", "2001:db8::7"];
-    let v4_peers = ["127.0.0.1", "127.0.0.2", "127.9.9.9", "127.200.1.1"];
+    // 127.0.0.12 / 127.0.0.20: addresses whose text has another entry's text as a proper prefix (lesson L19: a comparison
+    // by text prefix confuses them in one direction or the other)
+    let universe = ["127.0.0.1", "127.0.0.2", "127.9.9.9", "127.200.1.1", "::1", "10.1.2.3", "192.0.2.55", "2001:db8::7", "127.0.0.12", "127.0.0.20"];
+    let v4_peers = ["127.0.0.1", "127.0.0.2", "127.9.9.9", "127.200.1.1", "127.0.0.12", "127.0.0.20"];
     let have_v6 = v6_available();
     let have_dual = dual_stack_ok();
     let empty = json!([]);
